@@ -11,12 +11,15 @@ PATCHES=("$@")
 if [ ${#PATCHES[@]} -eq 0 ]; then
   PATCHES=(mutants/*.patch seeded/*/patch.diff)
 fi
-# works on a scratch worktree of /repo's HEAD, so /repo itself is never touched
+# works on a scratch worktree of /repo's HEAD and on a scratch copy of /verif (sources,
+# evidence and replays of these runs stay there), so neither /repo nor /verif is touched
+# and both may be edited while this runs
 SCR="$(mktemp -d /tmp/selftest-repo-XXXXXX)"; rmdir "$SCR"
 git -C /repo worktree add -q --detach "$SCR" HEAD || exit 2
-trap 'git -C /repo worktree remove --force "$SCR"' EXIT
+SCRV="$(mktemp -d /tmp/selftest-verif-XXXXXX)"
+cp -a /verif/check /verif/sim /verif/known_findings.json "$SCRV"/
+trap 'git -C /repo worktree remove --force "$SCR"; rm -rf "$SCRV"' EXIT
 export VERIF_REPO="$SCR"
-EVSAVE="$(mktemp -d /tmp/selftest-ev-XXXXXX)"; cp -a /verif/evidence/. "$EVSAVE"/ 2>/dev/null
 printf "%-58s %-5s %s\n" "change" "owner" "results (check=exit)"
 for P in "${PATCHES[@]}"; do
   [ -f "$P" ] || continue
@@ -28,11 +31,9 @@ for P in "${PATCHES[@]}"; do
   RES=""
   CHECKS="$OWNER"; [ $ALL = 1 ] && CHECKS="C11 C12 C13 C15 C16"
   for C in $CHECKS; do
-    timeout 1800 ./check "$C" quick > "/tmp/selftest-$NAME-$C.log" 2>&1; RC=$?
+    timeout 1800 "$SCRV/check" "$C" quick > "/tmp/selftest-$NAME-$C.log" 2>&1; RC=$?
     RES="$RES $C=$RC"
   done
   git -C "$SCR" checkout -- . ; git -C "$SCR" clean -fdq
   printf "%-58s %-5s %s\n" "$NAME" "$OWNER" "$RES"
 done
-# evidence files are rewritten by every run: restore the ones from the unchanged tree
-cp -a "$EVSAVE"/. /verif/evidence/ 2>/dev/null; rm -rf "$EVSAVE"
